@@ -3,18 +3,22 @@ import os, shutil, subprocess, sys
 checks = sys.argv[1].split(',')
 tier = os.environ.get('TIER', 'quick')
 for diff in sys.argv[2:]:
-    d = '/tmp/mut/work_' + os.path.basename(diff).replace('.diff', '')
+    diff = os.path.abspath(diff)
+    label = os.path.basename(diff).replace('.diff', '')
+    if label == 'patch':
+        label = os.path.basename(os.path.dirname(diff))
+    d = f'/tmp/mut/work_{label}_{os.getpid()}'
     shutil.rmtree(d, ignore_errors=True); os.makedirs(d)
     for sub in ('param', 'numbergen'):
         shutil.copytree('/repo/' + sub, d + '/' + sub)
     r = subprocess.run(['patch', '-p1', '-s', '-d', d, '-i', diff], capture_output=True, text=True)
     if r.returncode != 0:
-        print(os.path.basename(diff), 'PATCH FAILED', r.stdout[-300:], r.stderr[-200:]); continue
+        print(label, 'PATCH FAILED', r.stdout[-300:], r.stderr[-200:]); continue
     out = {}
     for chk in checks:
         r = subprocess.run(['./check', chk, '--tier', tier], cwd='/verif', env=dict(os.environ, VERIF_REPO=d), capture_output=True, text=True)
         viol = [l for l in r.stdout.splitlines() if l.startswith('VIOLATION')]
         out[chk] = (r.returncode, 'nofail' if viol and all('no-failing-input-found' in v for v in viol) else ('cex' if viol else ''))
         if r.returncode == 2: out[chk] = (2, r.stdout[-200:])
-    print(os.path.basename(diff), out, flush=True)
+    print(label, out, flush=True)
     shutil.rmtree(d, ignore_errors=True)
